@@ -674,19 +674,20 @@ class MappingSchema(AbstractMappingSchema, Schema):
         Returns:
             The resulting expression type.
         """
-        if schema_type not in self._type_mapping_cache:
-            dialect = Dialect.get_or_raise(dialect) if dialect else self.dialect
+        dialect = Dialect.get_or_raise(dialect) if dialect else self.dialect
+        cache_key = (schema_type, dialect)
+        if cache_key not in self._type_mapping_cache:
             udt = dialect.SUPPORTS_USER_DEFINED_TYPES
 
             try:
                 expression = exp.DataType.from_str(schema_type, dialect=dialect, udt=udt)
                 expression.transform(dialect.normalize_identifier, copy=False)
-                self._type_mapping_cache[schema_type] = expression
+                self._type_mapping_cache[cache_key] = expression
             except AttributeError:
                 in_dialect = f" in dialect {dialect}" if dialect else ""
                 raise SchemaError(f"Failed to build type '{schema_type}'{in_dialect}.")
 
-        return self._type_mapping_cache[schema_type]
+        return self._type_mapping_cache[cache_key]
 
 
 def normalize_name(
